@@ -156,6 +156,12 @@ def gen(rng, tier):
     for pre in (b"\x80", b"\xc0\x00", bytes([0x41, 0x40]), bytes([0x40, 0x00]), bytes([0x7f, 0xff]), bytes([0x4b, 0x80]), bytes([0x4b, 0xc0]), bytes([46]), bytes([47])):
         p = pre + bytes(range(32))
         yield Case("ss58dec", [tx(Base58Encoder.Encode(p + _SS58Utils.ComputeChecksum(p)))], "neg-noncanon")
+    # every first byte from 0x40 up (two-byte forms, the reserved range 0x80-0xff) with representative second bytes, valid checksum
+    acct = bytes(rng.randrange(256) for _ in range(32))
+    for b0 in range(0x40, 0x100):
+        for b1 in (0x00, 0x3f, 0x40, 0x45, 0xff):
+            p = bytes([b0, b1]) + acct
+            yield Case("ss58dec", [tx(Base58Encoder.Encode(p + _SS58Utils.ComputeChecksum(p)))], "neg-ss58-prefix" if b0 >= 0x80 else "ss58-two-byte")
     for s in ("", "1", "11", "zzzzzzzzzzz", "zz", "11111111112", "jpXCZedGfVQ", "jpXCZedGfVR", "1111111111", "5Q", "5R", "LUv", "LUw", "2UzHL", "2UzHM",
               "ZiCa", "ZiCb", "VtB5VXc", "3CUsUpv9t", "3CUsUpv9u", "Ahg1opVcGW", "Ahg1opVcGX"):
         yield Case("xmrdec", [tx(s)], "neg-xmrblock")
